@@ -12,6 +12,8 @@ import ScsiVerif.Model.Enum
 import ScsiVerif.Model.InitDevice
 import ScsiVerif.Model.Isolation
 import ScsiVerif.Std.Target
+import ScsiVerif.Driver.PVText
+import ScsiVerif.Model.Formats.Decode
 import ScsiVerif.Std.Sense
 import ScsiVerif.Gen.Commands
 import ScsiVerif.Gen.Opcodes
@@ -237,6 +239,29 @@ def cmdOp (toks : List String) : Option String :=
       | none => "-"
       | some (c, some n) => c ++ "/" ++ toString n
       | some (c, none) => c)))
+  -- unm <decoder> <hex> <E args> : model of Class.unmarshall_datain
+  | ["unm", name, data, env] => do
+    let d ← parseBytes data
+    let e ← parseEnv env
+    let arg : String → Nat := fun k => ((e.find? (·.1 == k)).bind (fun kv => Cmd.asInt kv.2)).getD 0
+    let r : Except Conv.PyErr PVal.PV := match name with
+      | "getlbastatus" => Dec.getLbaStatus d
+      | "reportluns" => Dec.reportLuns d
+      | "prreadkeys" => Dec.prReadKeys d
+      | "readcapacity10" => Dec.readCapacity10 d
+      | "readcapacity16" => Dec.readCapacity16 d
+      | "prreadreservation" => Dec.prReadReservation d
+      | "prreportcapabilities" => Dec.prReportCapabilities d
+      | "readdiscinformation" => Dec.readDiscInformation d
+      | "inquiry" => Dec.inquiry d (arg "evpd")
+      | "modesense6" => Dec.modeSense6 d
+      | "modesense10" => Dec.modeSense10 d
+      | "readelementstatus" => Dec.readElementStatus d
+      | "reporttargetportgroups" => Dec.reportTargetPortGroups d
+      | "prreadfullstatus" => Dec.prReadFullStatus d
+      | "readcd" => Dec.readCd d (arg "lba") (arg "tl") (arg "est") (arg "mcsb") (arg "c2ei") (arg "scsb")
+      | _ => .error .notImplemented
+    pure (PVText.showExceptPV r)
   | ["t10op", name] => pure (match Std.lookup Std.t10Opcodes name with | some v => "ok " ++ toString v | none => "none")
   | ["t10sa", name] => pure (match Std.lookup Std.t10ServiceActions name with | some v => "ok " ++ toString v | none => "none")
   | ["samstatus", name] => pure (match Std.lookup Std.samStatus name with | some v => "ok " ++ toString v | none => "none")
